@@ -179,119 +179,126 @@ func c14LocalActions(t *testing.T, r *vReport, idx *int64, root string) {
 		present, required, def bool
 		defText                string
 	}{{false, false, false, ""}, {true, false, false, ""}, {true, true, false, ""}, {true, true, true, "x"}, {true, false, true, "x"}, {true, true, true, "''"}, {true, true, true, "false"}}
-	names := []string{"alpha", "Beta", "gamma"}
 	nst := len(states)
-	for combo := 0; combo < nst*nst*nst; combo++ {
-		var ins []c14In
-		x := combo
-		for i := 0; i < 3; i++ {
-			st := states[x%nst]
-			x /= nst
-			if st.present {
-				ins = append(ins, c14In{names[i], st.required, st.def, st.defText})
-			}
-		}
-		for nout := 0; nout <= 2; nout++ {
-			*idx++
-			if !r.Mine(*idx) {
-				continue
-			}
-			if r.Expired() {
-				return
-			}
-			var a strings.Builder
-			a.WriteString("name: act\ndescription: d\n")
-			if len(ins) > 0 {
-				a.WriteString("inputs:\n")
-				for _, in := range ins {
-					a.WriteString("  " + in.name + ":\n    description: d\n")
-					if in.required {
-						a.WriteString("    required: true\n")
-					}
-					if in.def {
-						a.WriteString("    default: " + in.defText + "\n")
-					}
+	// the second name set uses the two with: keys that the workflow parser stores apart from the
+	// other inputs (args, entrypoint): for an action that declares inputs of these names they are
+	// inputs like any other
+	for _, names := range [][]string{{"alpha", "Beta", "gamma"}, {"args", "Entrypoint", "gamma"}} {
+		for combo := 0; combo < nst*nst*nst; combo++ {
+			var ins []c14In
+			x := combo
+			for i := 0; i < 3; i++ {
+				st := states[x%nst]
+				x /= nst
+				if st.present {
+					ins = append(ins, c14In{names[i], st.required, st.def, st.defText})
 				}
 			}
-			outNames := []string{"OutOne", "outtwo"}[:nout]
-			if nout > 0 {
-				a.WriteString("outputs:\n")
-				for _, o := range outNames {
-					a.WriteString("  " + o + ":\n    description: d\n    value: v\n")
-				}
-			}
-			a.WriteString("runs:\n  using: composite\n  steps:\n    - run: echo\n      shell: bash\n")
-			dir := filepath.Join(root, fmt.Sprintf("la%d", *idx))
-			vWriteFiles(t, dir, map[string]string{".git/HEAD": "x\n", "act/action.yml": a.String(), ".github/workflows/.keep": ""})
-			// call sites: every subset of declared names, plus one extra, plus all names re-cased
-			var sites [][]string
-			for m := 0; m < 1<<len(ins); m++ {
-				var ks []string
-				for i, in := range ins {
-					if m&(1<<i) != 0 {
-						ks = append(ks, in.name)
-					}
-				}
-				sites = append(sites, ks)
-			}
-			var allUp []string
-			for _, in := range ins {
-				allUp = append(allUp, strings.ToUpper(in.name))
-			}
-			sites = append(sites, append(append([]string{}, allUp...), "zzextra"))
-			for si, keys := range sites {
-				var b strings.Builder
-				b.WriteString("on: push\njobs:\n  a:\n    runs-on: ubuntu-latest\n    steps:\n      - uses: ./act\n        id: s\n")
-				if len(keys) > 0 {
-					b.WriteString("        with:\n")
-					for _, k := range keys {
-						b.WriteString("          " + k + ": v\n")
-					}
-				}
-				for _, o := range outNames {
-					b.WriteString("      - run: echo ${{ steps.s.outputs." + strings.ToLower(o) + " }}\n")
-				}
-				b.WriteString("      - run: echo ${{ steps.s.outputs.zzundeclared }}\n")
-				src := b.String()
-				wf := filepath.Join(dir, ".github/workflows/w.yml")
-				os.WriteFile(wf, []byte(src), 0o644)
-				res := c01LintFileCopy(dir, wf)
-				r.Evaluations++
-				r.Transitions++
-				r.Validated++
-				desc := fmt.Sprintf("local action inputs=%+v outputs=%v call site %d %v", ins, outNames, si, keys)
-				rp := map[string]any{"action_yml": a.String()}
-				if res.Panic != "" || res.Err != nil {
-					r.Violation("failure", fmt.Sprintf("%s: panic=%q err=%v", desc, vTrunc(res.Panic, 200), res.Err), map[string]any{"desc": desc, "src": src, "action_yml": a.String()})
+			for nout := 0; nout <= 2; nout++ {
+				*idx++
+				if !r.Mine(*idx) {
 					continue
 				}
-				given := map[string]bool{}
-				for _, k := range keys {
-					given[strings.ToLower(k)] = true
+				if r.Expired() {
+					return
 				}
-				var wantMissing, wantExtra []string
-				for _, in := range ins {
-					if in.required && !in.def && !given[strings.ToLower(in.name)] {
-						wantMissing = append(wantMissing, strings.ToLower(in.name))
-					}
-				}
-				for k := range given {
-					ok := false
+				var a strings.Builder
+				a.WriteString("name: act\ndescription: d\n")
+				if len(ins) > 0 {
+					a.WriteString("inputs:\n")
 					for _, in := range ins {
-						if strings.ToLower(in.name) == k {
-							ok = true
+						a.WriteString("  " + in.name + ":\n    description: d\n")
+						if in.required {
+							a.WriteString("    required: true\n")
+						}
+						if in.def {
+							a.WriteString("    default: " + in.defText + "\n")
 						}
 					}
-					if !ok {
-						wantExtra = append(wantExtra, k)
+				}
+				outNames := []string{"OutOne", "outtwo"}[:nout]
+				if nout > 0 {
+					a.WriteString("outputs:\n")
+					for _, o := range outNames {
+						a.WriteString("  " + o + ":\n    description: d\n    value: v\n")
 					}
 				}
-				c14Compare(r, "missing-required-input", "local-action", desc, src, c14Set(res.Errs, c14MissingRe), wantMissing, rp)
-				c14Compare(r, "undeclared-input", "local-action", desc, src, c14Set(res.Errs, c14ExtraRe), wantExtra, rp)
-				c14Compare(r, "undeclared-output", "local-action", desc, src, c14Set(res.Errs, c14PropRe), []string{"zzundeclared"}, rp)
-				r.Class(fmt.Sprintf("local-action inputs=%d missing=%d extra=%d", len(ins), len(wantMissing), len(wantExtra)), len(wantMissing)+len(wantExtra) > 0)
+				a.WriteString("runs:\n  using: composite\n  steps:\n    - run: echo\n      shell: bash\n")
+				dir := filepath.Join(root, fmt.Sprintf("la%d", *idx))
+				// the same action at three places of the repository: a directory, the root, a nested directory
+				vWriteFiles(t, dir, map[string]string{".git/HEAD": "x\n", "act/action.yml": a.String(), "action.yml": a.String(), "deep/er/act/action.yaml": a.String(), ".github/workflows/.keep": ""})
+				// call sites: every subset of declared names, plus one extra, plus all names re-cased
+				var sites [][]string
+				for m := 0; m < 1<<len(ins); m++ {
+					var ks []string
+					for i, in := range ins {
+						if m&(1<<i) != 0 {
+							ks = append(ks, in.name)
+						}
+					}
+					sites = append(sites, ks)
+				}
+				var allUp []string
+				for _, in := range ins {
+					allUp = append(allUp, strings.ToUpper(in.name))
+				}
+				sites = append(sites, append(append([]string{}, allUp...), "zzextra"))
+				specs := []string{"./act", "./act/", "./", "./deep/er/act", "./deep/../act", ".//"}
+				for sj := 0; sj < len(sites)*len(specs); sj++ {
+					si, keys, spec := sj/len(specs), sites[sj/len(specs)], specs[sj%len(specs)]
+					var b strings.Builder
+					b.WriteString("on: push\njobs:\n  a:\n    runs-on: ubuntu-latest\n    steps:\n      - uses: " + spec + "\n        id: s\n")
+					if len(keys) > 0 {
+						b.WriteString("        with:\n")
+						for _, k := range keys {
+							b.WriteString("          " + k + ": v\n")
+						}
+					}
+					for _, o := range outNames {
+						b.WriteString("      - run: echo ${{ steps.s.outputs." + strings.ToLower(o) + " }}\n")
+					}
+					b.WriteString("      - run: echo ${{ steps.s.outputs.zzundeclared }}\n")
+					src := b.String()
+					wf := filepath.Join(dir, ".github/workflows/w.yml")
+					os.WriteFile(wf, []byte(src), 0o644)
+					res := c01LintFileCopy(dir, wf)
+					r.Evaluations++
+					r.Transitions++
+					r.Validated++
+					desc := fmt.Sprintf("local action inputs=%+v outputs=%v uses: %s call site %d %v", ins, outNames, spec, si, keys)
+					rp := map[string]any{"action_yml": a.String()}
+					if res.Panic != "" || res.Err != nil {
+						r.Violation("failure", fmt.Sprintf("%s: panic=%q err=%v", desc, vTrunc(res.Panic, 200), res.Err), map[string]any{"desc": desc, "src": src, "action_yml": a.String()})
+						continue
+					}
+					given := map[string]bool{}
+					for _, k := range keys {
+						given[strings.ToLower(k)] = true
+					}
+					var wantMissing, wantExtra []string
+					for _, in := range ins {
+						if in.required && !in.def && !given[strings.ToLower(in.name)] {
+							wantMissing = append(wantMissing, strings.ToLower(in.name))
+						}
+					}
+					for k := range given {
+						ok := false
+						for _, in := range ins {
+							if strings.ToLower(in.name) == k {
+								ok = true
+							}
+						}
+						if !ok {
+							wantExtra = append(wantExtra, k)
+						}
+					}
+					c14Compare(r, "missing-required-input", "local-action", desc, src, c14Set(res.Errs, c14MissingRe), wantMissing, rp)
+					c14Compare(r, "undeclared-input", "local-action", desc, src, c14Set(res.Errs, c14ExtraRe), wantExtra, rp)
+					c14Compare(r, "undeclared-output", "local-action", desc, src, c14Set(res.Errs, c14PropRe), []string{"zzundeclared"}, rp)
+					r.Class(fmt.Sprintf("local-action inputs=%d missing=%d extra=%d", len(ins), len(wantMissing), len(wantExtra)), len(wantMissing)+len(wantExtra) > 0)
+				}
+				os.RemoveAll(dir)
 			}
-			os.RemoveAll(dir)
 		}
 	}
 }
